@@ -144,7 +144,9 @@ def check(run):
         run.violation(sig(ev, "result is not the one the specification defines (large document)"), {"kind": "inplace", "event": ev, **conc})
     for p in problems + bproblems:
         if not p.get("gpg"):
-            run.violation(f"repodata signing: {p['problem'].split(':')[0] if 'client-side' in p['problem'] else p['problem']}",
+            import re
+            what = p["problem"].split(":")[0] if "client-side" in p["problem"] else p["problem"]
+            run.violation("repodata signing: " + re.sub(r"\b[ac]\d+\b", "<artifact>", what),
                           {"kind": "inplace", "case": p["case"], "problem": p["problem"]})
     for name, why in shipped_samples(run):
         run.violation(f"shipped sample: {why.split(' for ')[0]}", {"kind": "sample", "file": name, "problem": why})
